@@ -151,6 +151,8 @@ pub fn c11_profile() -> Profile {
     p.policy.reboot_needed_permille = 750;
     p.policy.reboot_allowed_permille = 300;
     p.next_delays_s = vec![0, 1, 60, 3600, 18000];
+    p.neighbour_permille = 150;
+    p.disk.slow = 100;
     p
 }
 
@@ -573,6 +575,8 @@ pub fn c08_profile() -> Profile {
     p.policy.reboot_allowed_permille = 200;
     p.next_delays_s = vec![0, 1, 60, 3600];
     p.wall_init = [6, 1, 1, 2];
+    p.disk.slow = 150;
+    p.neighbour_permille = 150;
     p
 }
 
@@ -704,6 +708,7 @@ pub fn c07_profile() -> Profile {
     p.installer.reboot = [0, 60, 40];
     p.policy.reboot_allowed_permille = 200;
     p.next_delays_s = vec![0, 1, 60, 3600];
+    p.disk.slow = 150;
     p
 }
 
